@@ -49,3 +49,15 @@ Print Assumptions C05_best_access_is_code.
 Theorem C05_forward_step_is_code : forall d p k st c, fwd_step_code d p k st c = fwd_step d p k false st c.
 Proof. exact fwd_step_tie. Qed.
 Print Assumptions C05_forward_step_is_code.
+
+(* ---- THE FULL DECLARATIVE STATEMENT (Optimal.v): the reported departure of a departure-time answer is not before the
+   requested time, meets the reported arrival, and is the latest such departure over ALL journeys ---- *)
+From TrV Require Import Proofs.RevOptCompose.
+Theorem C05_full_declarative : C05_decl_statement.
+Proof. exact C05_decl_proved. Qed.
+Print Assumptions C05_full_declarative.
+(* ... and it holds without the uniform-waiting restriction as well *)
+Theorem C05_full_declarative_mixed_waiting : forall d s p acc egr,
+  opt_domain d s p acc egr -> pos_hops_b d = true -> q_fwd p = true -> q_maxfw p <= 0 -> C05_decl d s p acc egr.
+Proof. exact C05_decl_strong. Qed.
+Print Assumptions C05_full_declarative_mixed_waiting.
